@@ -167,6 +167,26 @@ Effect(c, op) ==
   /\ extra' = IF op = "AddPair" THEN TRUE ELSE extra
   /\ legitPaired' = IF op = "RemPair" THEN FALSE ELSE legitPaired
 
+\* ---- the on-path adversary appends a plaintext protected request to the segment that carries the legitimate
+\* controller's genuine finish.  Before the session starts, the accessory takes one request at a time off the wire (guard
+\* one_request_at_a_time_before_the_session): what follows the finish request is read only after its response, that is with
+\* the keys of the session, where the appended bytes are no frame and end the connection.  Without the guard they were
+\* read ahead in plaintext together with the finish and are served as the verified connection's next request.
+InjectBehindFinish(c) ==
+  /\ Plain(c) /\ c \in LegitConn /\ "genuine_inject" \in FinishKinds
+  /\ vstep[c] = "StartResp" /\ exch[c] > 0 /\ legitPaired /\ KeyOf(c, "genuine") = "legit"
+  /\ vstep' = [vstep EXCEPT ![c] = "Waiting"] /\ sok' = sok \ {c}
+  /\ IF Guard("one_request_at_a_time_before_the_session")
+     THEN /\ Reply(c, "VFinish", "genuine_inject", "plain", "V4ok", {})
+          /\ mode' = [mode EXCEPT ![c] = "enc"] /\ verified' = [verified EXCEPT ![c] = TRUE]
+          /\ open' = [open EXCEPT ![c] = FALSE] /\ subs' = subs \ {c}
+          /\ UNCHANGED <<val, cb>>
+     ELSE /\ Reply(c, "VFinish", "genuine_inject", "plain", "V4ok+Served", Targets(c))
+          /\ mode' = [mode EXCEPT ![c] = "enc"] /\ verified' = [verified EXCEPT ![c] = TRUE]
+          /\ val' = 1 - val /\ cb' = IF cb < 2 THEN cb + 1 ELSE cb
+          /\ UNCHANGED <<open, subs>>
+  /\ UNCHANGED <<exch, legitPaired, extra, cache, same>>
+
 \* a request in plaintext, or framed under the keys the peer derived in its latest exchange
 Req(c, op, form) ==
   /\ open[c] /\ op \in Ops
@@ -203,7 +223,8 @@ Close(c) ==
 
 Next == \/ \E c \in Conn :
              \/ \E len \in StartLens : VStart(c, len)
-             \/ \E k \in FinishKinds : VFinish(c, k)
+             \/ \E k \in FinishKinds \ {"genuine_inject"} : VFinish(c, k)
+             \/ InjectBehindFinish(c)
              \/ \E k \in Noise : PSNoise(c, k)
              \/ \E op \in Ops, f \in {"plain", "cipher"} : Req(c, op, f)
              \/ Close(c)
@@ -223,6 +244,8 @@ RefusalChangesNothing ==
   [][ (last'.c \in Conn /\ ~verified[last'.c] /\ last'.a # "Close")
         => /\ UNCHANGED <<val, cb, extra, legitPaired>>
            /\ subs' \subseteq subs ]_vars
+\* what the verified controller did not send inside the session is not served on it (C01)
+NoPlainInSession == [][ last'.r # "V4ok+Served" ]_vars
 NoCarryOver == \A c \in EvilConn : ~verified[c] /\ mode[c] = "plain"
 OnlyVerifiedGetEvents == [][ \A c \in last'.ev : verified[c] ]_vars
 
